@@ -161,7 +161,25 @@ pub fn child(env: &Env, history: &[Op]) -> Result<(), String> {
         match op {
             Op::AddTrusted => {
                 if retargeted {
-                    // the path now resolves to the other device: registering it would (legitimately) trust that device
+                    // the path is now a symlink (living on the first device) to a file on the other
+                    // device: the evidence comes from the file that is opened, so it is the OTHER
+                    // device that becomes trusted, not the one the link sits on
+                    registering = Some(env.p_t());
+                    nfs_voucher::add_trusted_path(env.p_t()).map_err(|e| format!("{}: add_trusted_path (through a symlink) failed: {}", step, e))?;
+                    if !trusted_devs.contains(&other_dev) {
+                        trusted_devs.push(other_dev);
+                    }
+                    println!("COV registered-through-symlink");
+                    // fall through to the checks after every call
+                    std::thread::sleep(std::time::Duration::from_millis(12));
+                    let after = unlocked().map_err(|e| format!("{}: {}", step, e))?;
+                    if after < base {
+                        return Err(format!("{}: the base time went backwards, from {} to {}", step, base, after));
+                    }
+                    if after != base && Some(after) != ctime_ms(&env.u_new()) {
+                        return Err(format!("{}: the base time moved to {} which is not the change-time of the file the symlink resolves to ({:?})", step, after, ctime_ms(&env.u_new())));
+                    }
+                    base = after;
                     continue;
                 }
                 registering = Some(env.p_t());
